@@ -63,6 +63,8 @@ def cases(tier, cfg):
                 out.append(Case(f"C13/determinant_qr[{t}|n={n},arg=tensor,grp={g}]", f"c13::det_case<{ct},{n},0,{GROUPS[g]}>(fx);", route="det.qr", cost=cost(n) if gi == 0 else 0.2))
             if n in (2, 3, 5, 9):
                 out.append(Case(f"C13/determinant_qr[{t}|n={n},arg=expr,grp=dom]", f"c13::det_case<{ct},{n},1,0>(fx);", route="det.qr_expr", cost=cost(n)))
+                # row-permuted members: odd permutations give negative determinants, where product(diag(R)) and the signed determinant differ
+                out.append(Case(f"C13/determinant_qr[{t}|n={n},arg=expr,grp=perm]", f"c13::det_case<{ct},{n},1,{GROUPS['perm']}>(fx);", route="det.qr_expr", cost=cost(n)))
         # QRCompType::HHR: static_assert "not implemented yet" - recorded, not judged (own TU)
         out.append(Case(f"C13/qr[{t}|n=3,strat=HHR,penc=none,arg=tensor,grp=dom]", f"c13::hhr_case<{ct},3>(fx);", route="qr.unimplemented", cost=TU_BUDGET, must_compile=False))
     return out
